@@ -79,3 +79,229 @@ theorem run_skipChunks : ∀ (hl : List HStep) (s : AbsSrc), s.WF → sizesNonne
       simp only [skipChunks, bind_eq_dbind, pure_eq_ret]
       rw [runAbs_bind, ih s hw hn' ht]
       simp [runAbs, regionsOf, madeOptOf, removedOf, totalSize]
+
+/-! ## the regions cover exactly the chunks the writer laid out -/
+
+theorem chunksFrom_length_succ (fs : List EncField) (k n : Nat) :
+    chunksFrom fs k (n + 1) = chunkBytes fs k ++ chunksFrom fs (k + 1) n := rfl
+
+/-- a region list describes the chunks `k0, k0+1, …` of `fs` inside the window `W` -/
+def RegionsDescribe (W : Bytes) (fs : List EncField) (k0 : Nat) (rs : List Region) : Prop :=
+  ∀ i r, rs[i]? = some r →
+    r.start ≤ r.end_ ∧ r.end_ ≤ W.length ∧ (W.drop r.start).take (r.end_ - r.start) = chunkBytes fs (k0 + i) ∧ r.pos = 0
+
+theorem regionsOf_spec (fs : List EncField) : ∀ (hl : List HStep) (k0 p : Nat) (W t : Bytes),
+    W.drop p = chunksFrom fs k0 hl.length ++ t →
+    (∀ i h, hl[i]? = some h →
+        h = sizeHStep (chunkBytes fs (k0 + i)).length ∨ ((∀ n, h ≠ .size n) ∧ chunkBytes fs (k0 + i) = [])) →
+    totalSize hl = (chunksFrom fs k0 hl.length).length ∧ sizesNonneg hl ∧ RegionsDescribe W fs k0 (regionsOf p hl) := by
+  intro hl
+  induction hl with
+  | nil => intro k0 p W t _ _; simp [totalSize, chunksFrom, sizesNonneg, RegionsDescribe, regionsOf]
+  | cons h rest ih =>
+    intro k0 p W t hW hcond
+    have h0 := hcond 0 h (by simp)
+    simp only [Nat.add_zero] at h0
+    have hcond' : ∀ i h', rest[i]? = some h' →
+        h' = sizeHStep (chunkBytes fs (k0 + 1 + i)).length ∨ ((∀ n, h' ≠ .size n) ∧ chunkBytes fs (k0 + 1 + i) = []) := by
+      intro i h' hi
+      have := hcond (i + 1) h' (by simpa using hi)
+      have e : k0 + (i + 1) = k0 + 1 + i := by omega
+      rw [e] at this; exact this
+    simp only [List.length_cons, chunksFrom_length_succ] at hW ⊢
+    -- the chunk of this step
+    by_cases hlen : (chunkBytes fs k0).length = 0
+    · -- empty chunk: whatever the step, the region is empty or of size 0
+      have hnil : chunkBytes fs k0 = [] := List.length_eq_zero_iff.mp hlen
+      have hns : ∀ n, h ≠ .size n := by
+        rcases h0 with h0 | h0
+        · rw [h0]; simp [sizeHStep, hlen]
+        · exact h0.1
+      have hW' : W.drop p = chunksFrom fs (k0 + 1) rest.length ++ t := by simpa [hnil] using hW
+      obtain ⟨ht, hn, hr⟩ := ih (k0 + 1) p W t hW' hcond'
+      have hreg : regionsOf p (h :: rest) = Region.empty :: regionsOf p rest := by
+        cases h <;> simp [regionsOf] at hns ⊢
+      have htot : totalSize (h :: rest) = totalSize rest := by
+        cases h <;> simp [totalSize] at hns ⊢
+      refine ⟨by rw [htot, ht, hnil]; simp, ?_, ?_⟩
+      · intro n hm; simp at hm; rcases hm with hm | hm
+        · exact absurd hm.symm (hns n)
+        · exact hn n hm
+      · intro i r hi
+        rw [hreg] at hi
+        cases i with
+        | zero => simp at hi; subst hi; simp [Region.empty, hnil]
+        | succ j =>
+          have := hr j r (by simpa using hi)
+          have e : k0 + (j + 1) = k0 + 1 + j := by omega
+          rw [e]; exact this
+    · -- non-empty chunk: the step must be its size
+      have hsz : h = .size ((chunkBytes fs k0).length : Int) := by
+        rcases h0 with h0 | h0
+        · rw [h0]; simp [sizeHStep, hlen]
+        · exact absurd (by rw [h0.2]; rfl) hlen
+      subst hsz
+      have hW' : W.drop (p + (chunkBytes fs k0).length) = chunksFrom fs (k0 + 1) rest.length ++ t := by
+        rw [← List.drop_drop, hW]; simp
+      obtain ⟨ht, hn, hr⟩ := ih (k0 + 1) (p + (chunkBytes fs k0).length) W t hW' hcond'
+      refine ⟨by simp [totalSize, ht], ?_, ?_⟩
+      · intro n hm; simp at hm; rcases hm with hm | hm
+        · rw [hm]; omega
+        · exact hn n hm
+      · intro i r hi
+        simp only [regionsOf, Int.toNat_natCast] at hi
+        cases i with
+        | zero =>
+          simp at hi; subst hi
+          have hWl : p + (chunkBytes fs k0).length ≤ W.length := by
+            have := congrArg List.length hW
+            simp at this; omega
+          refine ⟨by simp [Region.new], by simpa [Region.new] using hWl, ?_, by simp [Region.new]⟩
+          simp only [Region.new, Nat.add_sub_cancel_left, Nat.add_zero]
+          rw [hW]; simp
+        | succ j =>
+          have := hr j r (by simpa using hi)
+          have e : k0 + (j + 1) = k0 + 1 + j := by omega
+          rw [e]; exact this
+
+/-! ## facts about generations and chunk contents -/
+
+theorem genOf_go_le (name : String) : ∀ (steps : List Step) (i acc : Nat), acc < i → genOf.go name steps i acc < i + steps.length := by
+  intro steps
+  induction steps with
+  | nil => intro i acc h; simp [genOf.go]; omega
+  | cons s rest ih =>
+    intro i acc h
+    cases s with
+    | added n =>
+      simp only [genOf.go, List.length_cons]
+      split
+      · have := ih (i + 1) i (by omega); omega
+      · have := ih (i + 1) acc (by omega); omega
+    | _ => simp only [genOf.go, List.length_cons]; have := ih (i + 1) acc (by omega); omega
+
+theorem genOf_le (steps : List Step) (name : String) : genOf steps name ≤ steps.length := by
+  have := genOf_go_le name steps 1 0 (by omega)
+  unfold genOf; omega
+
+/-- a non-zero generation is the index of a `FieldAdded` step -/
+theorem genOf_go_added (name : String) : ∀ (steps : List Step) (i acc : Nat), acc < i →
+    genOf.go name steps i acc = acc ∨ ∃ j m, steps[j]? = some (.added m) ∧ genOf.go name steps i acc = i + j := by
+  intro steps
+  induction steps with
+  | nil => intro i acc _; left; simp [genOf.go]
+  | cons s rest ih =>
+    intro i acc h
+    cases s with
+    | added n =>
+      simp only [genOf.go]
+      split
+      · rcases ih (i + 1) i (by omega) with h1 | ⟨j, m, hj, he⟩
+        · right; exact ⟨0, n, by simp, by rw [h1]; simp⟩
+        · right; exact ⟨j + 1, m, by simpa using hj, by rw [he]; omega⟩
+      · rcases ih (i + 1) acc (by omega) with h1 | ⟨j, m, hj, he⟩
+        · left; exact h1
+        · right; exact ⟨j + 1, m, by simpa using hj, by rw [he]; omega⟩
+    | madeOptional n =>
+      simp only [genOf.go]
+      rcases ih (i + 1) acc (by omega) with h1 | ⟨j, m, hj, he⟩
+      · left; exact h1
+      · right; exact ⟨j + 1, m, by simpa using hj, by rw [he]; omega⟩
+    | removed n =>
+      simp only [genOf.go]
+      rcases ih (i + 1) acc (by omega) with h1 | ⟨j, m, hj, he⟩
+      · left; exact h1
+      · right; exact ⟨j + 1, m, by simpa using hj, by rw [he]; omega⟩
+    | madeTransient n =>
+      simp only [genOf.go]
+      rcases ih (i + 1) acc (by omega) with h1 | ⟨j, m, hj, he⟩
+      · left; exact h1
+      · right; exact ⟨j + 1, m, by simpa using hj, by rw [he]; omega⟩
+
+theorem genOf_added (steps : List Step) (name : String) (k : Nat) (hk : genOf steps name = k) (h0 : k ≠ 0) :
+    ∃ m, steps[k - 1]? = some (.added m) := by
+  unfold genOf at hk
+  rcases genOf_go_added name steps 1 0 (by omega) with h1 | ⟨j, m, hj, he⟩
+  · omega
+  · refine ⟨m, ?_⟩
+    have : k - 1 = j := by omega
+    rw [this]; exact hj
+
+theorem chunkBytes_append (a b : List EncField) (k : Nat) : chunkBytes (a ++ b) k = chunkBytes a k ++ chunkBytes b k := by
+  simp [chunkBytes, List.filter_append, List.flatMap_append]
+
+theorem chunkBytes_cons_eq (f : EncField) (l : List EncField) : chunkBytes (f :: l) f.chunk = f.bytes ++ chunkBytes l f.chunk := by
+  simp [chunkBytes, List.filter_cons]
+
+theorem chunkBytes_cons_ne (f : EncField) (l : List EncField) (k : Nat) (h : f.chunk ≠ k) : chunkBytes (f :: l) k = chunkBytes l k := by
+  simp [chunkBytes, List.filter_cons, h]
+
+theorem chunkBytes_nil_of_no_field (fs : List EncField) (k : Nat) (h : ∀ e ∈ fs, e.chunk ≠ k) : chunkBytes fs k = [] := by
+  induction fs with
+  | nil => simp [chunkBytes]
+  | cons f rest ih =>
+    rw [chunkBytes_cons_ne f rest k (h f (by simp))]
+    exact ih (fun e he => h e (by simp [he]))
+
+/-- the fields the writer produced carry the generation of their name -/
+theorem encFields_chunks (env : Env) (steps : List Step) : ∀ (fields : List Field) (v : Val) (st : EncSt) (l : List EncField) (st' : EncSt),
+    encFields env steps fields v st = .ok (l, st') → ∀ e ∈ l, e.chunk = genOf steps e.name := by
+  intro fields
+  induction fields with
+  | nil => intro v st l st' h; cases v <;> simp [encFields, illTyped] at h; obtain ⟨rfl, _⟩ := h; simp
+  | cons f fs ih =>
+    intro v st l st' h
+    cases v with
+    | vcons x rest =>
+      simp only [encFields] at h
+      cases hr : f.role with
+      | transient => simp only [hr] at h; exact ih rest st l st' h
+      | plain =>
+        simp only [hr] at h
+        cases hx : enc env f.ty x st with
+        | ok p =>
+          obtain ⟨b, st1⟩ := p
+          simp only [hx, Outcome.bind_ok] at h
+          cases hq : encFields env steps fs rest st1 with
+          | ok q =>
+            obtain ⟨l2, st2⟩ := q
+            simp [hq] at h
+            obtain ⟨rfl, rfl⟩ := h
+            intro e he
+            simp at he
+            rcases he with rfl | he
+            · rfl
+            · exact ih rest st1 l2 st2 hq e he
+          | err e => simp [hq] at h
+          | panic w => simp [hq] at h
+        | err e => simp [hx] at h
+        | panic w => simp [hx] at h
+      | optional =>
+        simp only [hr] at h
+        cases hx : enc env f.ty x st with
+        | ok p =>
+          obtain ⟨b, st1⟩ := p
+          simp only [hx, Outcome.bind_ok] at h
+          cases hq : encFields env steps fs rest st1 with
+          | ok q =>
+            obtain ⟨l2, st2⟩ := q
+            simp [hq] at h
+            obtain ⟨rfl, rfl⟩ := h
+            intro e he
+            simp at he
+            rcases he with rfl | he
+            · rfl
+            · exact ih rest st1 l2 st2 hq e he
+          | err e => simp [hq] at h
+          | panic w => simp [hq] at h
+        | err e => simp [hx] at h
+        | panic w => simp [hx] at h
+    | _ => simp [encFields, illTyped] at h
+
+/-- a chunk whose step is not `FieldAdded` holds no field -/
+theorem chunk_empty_of_not_added (steps : List Step) (fs : List EncField) (hfs : ∀ e ∈ fs, e.chunk = genOf steps e.name)
+    (k : Nat) (hk : k ≠ 0) (hna : ∀ m, steps[k - 1]? ≠ some (.added m)) : chunkBytes fs k = [] := by
+  apply chunkBytes_nil_of_no_field
+  intro e he heq
+  obtain ⟨m, hm⟩ := genOf_added steps e.name k (by rw [← hfs e he]; exact heq) hk
+  exact hna m hm
